@@ -140,6 +140,8 @@ def generate(seed, tier, index):
              for i in range(ndev)]
     if ndev >= 2 and rng.random() < 0.3:
         specs[1] = G.clone_as_second_instance(specs[0], "DEV1")  # two instances of one driver class
+    elif ndev >= 2 and rng.random() < 0.3 and len(specs[0]["levels"]) <= 2:
+        specs[1] = G.derive_family_member(rng, specs[0], "DEV1", KINDS)  # base driver and a subclass of it on one router
     nclients = rng.choice([1, 1, 2])
     snoop = []
     if ndev >= 2 and rng.random() < 0.4:
